@@ -42,18 +42,18 @@ Definition check_curve3 (T : @rigid3 FNum) (src : list F3) (tol : float) (rsrc r
 
 Definition check_geom3 (T U : @rigid3 FNum) (pts : list F3) (q : F3) (n : F3) (d : float)
            (rtn : F3) (rtd : float) (rtq : F3) (rspp rspn : F3) (rcloud rseq rcomp rnorm0 rnorm1 : list F3)
-           (da db : F2) (ra3 rb3 : F3) (rv2 rv3 : float) : Z :=
+           (da db ddir : F2) (ra3 rb3 rdir3 : F3) (rv2 rv3 : float) : Z :=
   let pl := @mkPlane FNum n d in
   let tp := @plane_transform FNum T pl in
   let p0 := match pts with p :: _ => p | [] => (0, 0, 0) end in
   let s := @sp3_transformed FNum T (p0, n) in
-  let '(a3, b3, dir3) := @dist_to_3d FNum T da db (@normalize2 FNum (@sub2 FNum db da)) in
+  let '(a3, b3, dir3) := @dist_to_3d FNum T da db ddir in
   if negb (p39 (pn tp) rtn && c9 (pd tp) rtd) then 1%Z
   else if negb (p39 (@apply3 FNum T q) rtq) then 2%Z
   else if negb (p39 (fst s) rspp && p39 (snd s) rspn) then 3%Z
   else if negb (pl39 (map (@apply3 FNum T) pts) rcloud) then 4%Z
   else if negb (pl39 (map (@rot3 FNum T) rnorm0) rnorm1) then 5%Z
   else if negb (pl39 (map (@apply3 FNum U) (map (@apply3 FNum T) pts)) rseq && pl39 (map (@apply3 FNum (@compose3 FNum U T)) pts) rcomp) then 6%Z
-  else if negb (p39 a3 ra3 && p39 b3 rb3) then 7%Z
-  else if negb (c9 (@dist2_value FNum da db (@normalize2 FNum (@sub2 FNum db da))) rv2 && c9 (@dist3_value FNum a3 b3 dir3) rv3) then 8%Z
+  else if negb (p39 a3 ra3 && p39 b3 rb3 && p39 dir3 rdir3) then 7%Z
+  else if negb (c9 (@dist2_value FNum da db ddir) rv2 && c9 (@dist3_value FNum a3 b3 dir3) rv3) then 8%Z
   else 0%Z.
